@@ -86,7 +86,7 @@ prop("C14",
      assumptions=DISP_ASSUME,
      residual="cell contents via text re-entry; row/column descriptor sizes and styles (insert/delete fragments not yet under contract)")
 prop("C15",
-     units=["refshift", "refarms", "strenv", "dispsites", "movecols"],
+     units=["refshift", "refarms", "strenv", "dispsites", "movecols", "modelatomic"],
      level="proof",
      claim="RowMove/ColumnMove arms of the reference rewriter, CF corner maps and link-key maps all equal move1, which has an inverse (lemma_move1_inverse): a single move is a permutation of the axis and references follow their cells",
      assumptions=DISP_ASSUME,
@@ -100,7 +100,7 @@ prop("C33",
 
 
 prop("C04",
-     units=["atomic", "cols", "rows"],
+     units=["atomic", "modelatomic", "cols", "rows"],
      scans=["history-writers"],
      level="proof",
      claim="each user-model operation under contract (list in coverage.functions_under_contract) leaves engine state, undo/redo stacks and outgoing queue "
